@@ -1,5 +1,5 @@
 (* C15 -- SDP and SCP packets encode to the wire layout and decode back unchanged. *)
-From Coq Require Import ZArith List Bool String.
+From Coq Require Import ZArith String List Bool.
 Require Import Rig.Generated.GenPackets Rig.Model.Base Rig.Model.Packet Rig.Spec.Packet Rig.Proofs.Packet.
 Import ListNotations.
 Open Scope Z_scope.
